@@ -277,6 +277,10 @@ TRUSTED_BASE_COMMON = [
 ]
 
 
+# Properties/TheoremB.v (exact denotational semantics) underlies the Script-level statements of C02, C03, C06
+EXTRA_PROPERTY_FILES = {"C06": ["TheoremB"]}
+
+
 def proof_gates(rep, pid):
     """Common proof-level gates: full make, grep gate, property file + Print Assumptions."""
     p = coq_make()
@@ -297,6 +301,15 @@ def proof_gates(rep, pid):
             rep.violation("property-file", "; ".join(problems),
                           {"property": pid, "broken_tie": "Properties/%s.v" % pid, "problems": problems}, found_input=False)
             ok = False
+    # shared statement files this property's theorems rest on are gated the same way
+    for extra in EXTRA_PROPERTY_FILES.get(pid, []):
+        if ok:
+            t2, b2, pr2, _ = check_property_file(extra)
+            if pr2:
+                rep.violation("property-file", "; ".join(pr2),
+                              {"property": pid, "broken_tie": "Properties/%s.v" % extra, "problems": pr2}, found_input=False)
+                ok = False
+            thms, blocks = thms + t2, blocks + b2
     rep.coverage["theorems"] = thms
     rep.coverage["print_assumptions"] = [("closed" if b["closed"] else ",".join(b["axioms"])) for b in blocks]
     return ok, thms
